@@ -15,9 +15,9 @@ CLAIMED = {
  "C11": dict(technique="custom AST rules on resolved std::atomic / condition_variable / lock calls: memory-order constants, predicate-wait and state-change-under-mutex discipline, must-precede ordering of the handshake",
              text="Static decision, on all paths of thread_pool's functions, of the synchronisation discipline (release/acquire hand-off, no lost wake-up by construction, handshake ordering). Exactly-once execution and partition arithmetic are not decided.",
              ref="§5 C11"),
- "C13": dict(technique="abstract interpretation of set_slope_exp over an interval domain (exhaustive over exponent intervals) + who-may-write rule",
-             text="Decides that the linear-case classification is two-sided for every exponent (intervals below / at / above one) on every instantiation; the numerical residual of the implicit equation is not decided.",
-             ref="§5 C13"),
+ "C13": dict(technique="abstract interpretation over (a) an interval domain for the linear-case classification and the Newton exit test, (b) an exact rational-function domain with uninterpreted pow (numeric representatives deciding the control path) for the discrete equation; who-may-write rule",
+             text="Decides, as symbolic identities valid for all values, that the linear-case erosion is the exact solution of the backward-Euler equation (1 and 2 receivers) and that the Newton loop evaluates the residual / update of that equation; that the linear-case classification is two-sided and the Newton exit test is two-sided (|residual| <= tolerance). The residual actually reached, rounding and iteration counts are numerical and not decided.",
+             ref="§5 C13, §12.2"),
  "C10": dict(technique="effect summaries (access paths, aliases, index shapes, callee summaries through returned references) of every run_blocks callable per grid type; must-precede rule for the sequential donors rebuild; sibling write-set agreement",
              text="Decides race freedom of the parallel regions by an effect discipline (shared objects written only at block-derived indices) for all 7 grid instantiations and all paths, plus the ordering of the donors rebuild. Numeric equality beyond race freedom and identical per-index logic is not decided; user kernel callbacks are assumed index-partitioned.",
              ref="§5 C10"),
